@@ -32,6 +32,7 @@ type p2pEnv struct {
 	fork   []*vhdr.Header
 	closer func()
 
+	lastGater    *conngater.BasicConnectionGater // the gater of the most recently built client
 	nilGater     bool // the Exchange is built without a connection gater
 	emptyTracker bool // C09: WithTrustedHead cases run with an empty peer tracker (fallback to the trusted peers)
 }
@@ -64,8 +65,10 @@ func (e *p2pEnv) client(trusted []peer.ID, chunk uint64, timeout time.Duration) 
 	if chunk > 0 {
 		opts = append(opts, p2p.WithMaxHeadersPerRangeRequest(chunk))
 	}
+	e.lastGater = gater
 	if e.nilGater {
 		gater = nil // a configuration the constructor accepts (the library's own tests use it)
+		e.lastGater = nil
 	}
 	ex, err := p2p.NewExchange[*vhdr.Header](e.hosts[0], trusted, gater, opts...)
 	if err != nil {
